@@ -12,7 +12,7 @@ TRUSTED_BASE = [
 LEVEL = {}
 
 # proof module per property when it is not LadimProofs/<id>.lean
-MODULES = {"C12": "C12Fjord"}
+MODULES = {"C12": "C12Fjord", "C06": "C06Main"}
 
 OBLIGATIONS = {
     "C05": [
@@ -138,5 +138,13 @@ OBLIGATIONS = {
         "C15.trilinear_weights", "C15.sample3D_convex", "C15.velocity_is_layer_value", "C15.z2sK_range", "C15.z2sA_unit",
         "C15.countBelow_brackets", "C15.z2s_reproduces_depth", "C15.vertdiffLevel_interior", "C15.vertdiff_nonneg",
         "C15.horzdiff_nonneg", "C15.horzdiff_zero_on_land",
+    ],
+    "C06": [
+        "C06.steps_aligned", "C06.unaligned_dt_fails", "C06.late_start_fails", "C06.late_start_fixed", "C06.gap_fails",
+        "C06.scalar_t0_fails", "C06.scalar_t0_current", "C06.scalar_prestep_fails", "C06.scalar_stepdiff_ok",
+        "C06.nextStep_spec", "C06.nextStep_of_mem", "C06.prestepOf_spec", "C06.bracket_unique", "C06.inv_step", "C06.inv_main",
+        "C06.velocity_consecutive", "C06.updateRange_add", "C06.run_loop_eq_range", "C06.update_loop_eq_range",
+        "C06.velocity_any_schedule", "C06.velocity_on_frame", "C06.scalar_on_frame", "C06.scalar_on_frame_t0", "C06.scalar_held",
+        "C06.scalar_held_after_prestep", "C06.scalar_before_first_frame", "C06.lerpS_between", "C06.scalar_between",
     ],
 }
